@@ -23,6 +23,12 @@ LEAVES = [
     # D18 repair: removing a listener that is not registered (set.remove -> KeyError) is caught
     ("Cache", "remove_listener_catches_keyerror", "_handlers/record_manager.py", "RecordManager.async_remove_listener", ("except_catches", "KeyError"),
      [], "bool", {}),
+    # ---- _engine.py: the periodic purge uses ONE reading of the clock: the instant it sweeps the cache with is the instant it
+    # tells the listeners (a second `current_time_millis()` is not in the translator's subset: fails closed)
+    ("Cache", "purge_expire_now", "_engine.py", "AsyncEngine._async_cache_cleanup", ("arg", "cache.async_expire", 0, 0),
+     [P("now", "now")], "num", {}),
+    ("Cache", "purge_updates_now", "_engine.py", "AsyncEngine._async_cache_cleanup", ("arg", "record_manager.async_updates", 0, 0),
+     [P("now", "now")], "num", {}),
     # ---- _services/browser.py (callback side only; the scheduler belongs to C10)
     ("Cache", "enqueue_test", "_services/browser.py", "_ServiceBrowserBase._enqueue_callback", ("if", "state_change", 0),
      [P("state_change is SERVICE_STATE_CHANGE_ADDED", "is_added", "bool"),
